@@ -22,6 +22,7 @@ def flakeLoopSteps : List String := ["run", "add:RUN.TestCases...)", "break-if:R
 def appendChain : List String := ["test.Failure != nil:appendFailure", "test.Error != nil:appendError", "test.Skipped != nil:appendSkipped", "else:appendSuccess"]
 def appendLoops : List String := ["test.FlakyFailure:appendFlakyFailure", "test.FlakyError:appendFlakyError", "test.RerunFailure:appendRerunFailure", "test.RerunError:appendRerunError"]
 def appendSets : List String := ["appendFailure:Failure", "appendError:Error", "appendSkipped:Skip", "appendSuccess:", "appendFlakyFailure:Failure", "appendFlakyError:Error", "appendRerunFailure:Failure", "appendRerunError:Error"]
+def nestedTraversal : String := "recursive"
 def nestedSuiteField : Bool := true
 def caseTags : List String := ["Error=error", "Failure=failure", "FlakyError=flakyError", "FlakyFailure=flakyFailure", "RerunError=rerunError", "RerunFailure=rerunFailure", "Skipped=skipped"]
 def bareCaseFields : List String := ["ClassName", "Name"]
